@@ -152,6 +152,7 @@ func c20(r *core.Report) {
 	c20Inv(r)
 	c20PathRef(r)
 	c20WrapperMarshal(r)
+	c20LockCallback(r)
 	c20TypedNil(r)
 	resetScope(r, "C20.resetscope")
 	crashPanic(r, csAll, map[string]panicExcuse{
@@ -1134,6 +1135,91 @@ func c20WrapperMarshal(r *core.Report) {
 				return true
 			})
 		}
+	})
+}
+
+// c20LockCallback: a package-level lock is not held while code the package does not control runs.
+// A reader handed to URIMapCache may itself be (or fall back to) a cache guarded by the same lock.
+func c20LockCallback(r *core.Report) {
+	p := r.Prog
+	info := p.Pkg("openapi3").TypesInfo
+	r.RunRule("C20.lockcallback", "loading does not deadlock on its own lock: in package openapi3, between taking a package-level mutex (Lock/RLock on a package variable) and releasing it — the rest of the function when the release is deferred — no function value (a parameter, a field, a captured variable: a reader, a callback) is called; with `defer mu.Unlock()` around the call of the wrapped reader, a reader that is itself a cache on the same mutex (URIMapCache(ReadFromURIs(custom, DefaultReadFromURI))) blocks for ever", 1, func() {
+		n := 0
+		pkgScope := p.Pkg("openapi3").Types.Scope()
+		isPkgMutex := func(e ast.Expr) bool {
+			id, ok := ast.Unparen(e).(*ast.Ident)
+			if !ok {
+				return false
+			}
+			o := info.ObjectOf(id)
+			return o != nil && o.Parent() == pkgScope
+		}
+		var scan func(fname string, body *ast.BlockStmt)
+		scan = func(fname string, body *ast.BlockStmt) {
+			ast.Inspect(body, func(nd ast.Node) bool {
+				blk, ok := nd.(*ast.BlockStmt)
+				if !ok {
+					return true
+				}
+				held, deferred := false, false
+				for _, st := range blk.List {
+					// lock / unlock statements of this block
+					if es, ok := st.(*ast.ExprStmt); ok {
+						if c, ok := es.X.(*ast.CallExpr); ok {
+							if sel, ok := ast.Unparen(c.Fun).(*ast.SelectorExpr); ok && isPkgMutex(sel.X) {
+								switch sel.Sel.Name {
+								case "Lock", "RLock":
+									held = true
+									n++
+									continue
+								case "Unlock", "RUnlock":
+									if !deferred {
+										held = false
+									}
+									continue
+								}
+							}
+						}
+					}
+					if ds, ok := st.(*ast.DeferStmt); ok {
+						if sel, ok := ast.Unparen(ds.Call.Fun).(*ast.SelectorExpr); ok && isPkgMutex(sel.X) && strings.HasSuffix(sel.Sel.Name, "nlock") {
+							deferred = true
+							continue
+						}
+					}
+					if !held {
+						continue
+					}
+					ast.Inspect(st, func(m ast.Node) bool {
+						if _, isLit := m.(*ast.FuncLit); isLit {
+							return false
+						}
+						c, ok := m.(*ast.CallExpr)
+						if !ok {
+							return true
+						}
+						if id, ok := ast.Unparen(c.Fun).(*ast.Ident); ok {
+							if v, isVar := info.ObjectOf(id).(*types.Var); isVar {
+								if _, isSig := v.Type().Underlying().(*types.Signature); isSig {
+									r.Bad(fmt.Sprintf("lockcallback:%s/%s", fname, id.Name), p.Pos(c.Pos()), fmt.Sprintf("%s calls the function value `%s` while it holds a package-level lock: when that function ends up in code that takes the same lock (another cache built on it), the load never returns", fname, id.Name))
+								}
+							}
+						}
+						return true
+					})
+				}
+				return true
+			})
+		}
+		for _, d := range p.AllDecls("openapi3") {
+			if d.Body != nil {
+				scan(core.FuncName(d), d.Body)
+			}
+		}
+		if n == 0 {
+			core.Fail("no package-level mutex is taken in package openapi3 (URIMapCache expected)")
+		}
+		r.Trivial("lockcallback:sections", "-", fmt.Sprintf("%d critical sections on package-level locks examined", n))
 	})
 }
 
